@@ -9,7 +9,7 @@ RULE = (
     "shapes up to 60 nodes incl. depth >= 6; distinct = hash of (family, shape, start); trivial = single-node subtree"
 )
 ASSUMPTIONS = ["depth <= 150"]
-GATES = ["mon.C05.sequence", "C05.depth_ge_4", "C05.cousins_at_different_positions", "C05.protocol", "C05.after_mutation", "C05.deep_spine_with_bush"]
+GATES = ["mon.C05.sequence", "C05.depth_ge_4", "C05.cousins_at_different_positions", "C05.protocol", "C05.after_mutation", "C05.deep_spine_with_bush", "C05.streamed_groups"]
 
 
 def plan(tier, seed, jobs):
@@ -63,6 +63,17 @@ def check_tree(ctx, nodes, par, ch, case, starts=None):
                 ctx.violation("C05/order/%s" % nm, "reference-order", dict(case, start=s), expected=exp[nm], observed=obs)
                 ok = False
                 continue
+            if nm in ("group", "zigzag") and len(obs) >= 3:
+                # streaming consumption: every group is dropped before the next one is requested
+                ctx.count("C05.streamed_groups")
+                stream = []
+                for grp in itcls(nodes[s]):
+                    stream.append([idmap.get(id(x), "?") for x in grp])
+                    del grp
+                if stream != obs:
+                    ctx.violation("C05/order/%s-streamed" % nm, "reference-order", dict(case, start=s), expected=obs, observed=stream)
+                    ok = False
+                    continue
             if sorted(flat) != sorted(sub):
                 ctx.violation("C05/exactly-once/%s" % nm, "exactly-once", dict(case, start=s), expected=sorted(sub), observed=flat)
                 ok = False
